@@ -18,7 +18,7 @@ type MemDBV2 struct {
 	keysByDuty map[core.Duty][]memDBKey // Key index by duty for fast deletion.
 	deadliner  core.Deadliner
 	closed     chan struct{}
-	notify     chan struct{} // Notification channel for data availability
+	notify     chan struct{} // Closed (and replaced) by each Store to wake up all waiting Await calls.
 }
 
 // NewMemDBV2 creates a basic memory based AggSigDB.
@@ -27,7 +27,7 @@ func NewMemDBV2(deadliner core.Deadliner) *MemDBV2 {
 		// data, keysByDuty are okay to use without explicit initialization
 		deadliner:  deadliner,
 		closed:     make(chan struct{}),
-		notify:     make(chan struct{}, 1), // Buffered channel for non-blocking sends
+		notify:     make(chan struct{}),
 		data:       map[memDBKey]core.SignedData{},
 		keysByDuty: map[core.Duty][]memDBKey{},
 	}
@@ -68,6 +68,13 @@ func (m *MemDBV2) Store(ctx context.Context, duty core.Duty, set core.SignedData
 	default:
 	}
 
+	// Wake up all waiters when done: every pending Await must get the chance to query again, not only one of them.
+	// Do this on error as well, since part of the set may have been stored already.
+	defer func() {
+		close(m.notify)
+		m.notify = make(chan struct{})
+	}()
+
 	for pubKey, data := range set {
 		subcommIdx, err := core.SyncSubcommitteeIndex(duty.Type, data)
 		if err != nil {
@@ -79,22 +86,21 @@ func (m *MemDBV2) Store(ctx context.Context, duty core.Duty, set core.SignedData
 		}
 	}
 
-	// Notify waiters that new data is available
-	select {
-	case m.notify <- struct{}{}:
-	default:
-		// Channel already has a pending notification
-	}
-
 	return nil
 }
 
 func (m *MemDBV2) Await(ctx context.Context, duty core.Duty, pubKey core.PubKey, subcommIdx core.SubcommitteeIndex) (core.SignedData, error) {
 	errMustLoop := errors.New("still needs loop")
 
+	// notify is the notification channel observed while querying (under the read lock),
+	// so that a Store happening right after an unsuccessful query is not missed.
+	var notify <-chan struct{}
+
 	query := func() (core.SignedData, error) {
 		m.RLock()
 		defer m.RUnlock()
+
+		notify = m.notify
 
 		select {
 		case <-ctx.Done():
@@ -127,7 +133,7 @@ func (m *MemDBV2) Await(ctx context.Context, duty core.Duty, pubKey core.PubKey,
 			return nil, ctx.Err()
 		case <-m.closed:
 			return nil, ErrStopped
-		case <-m.notify:
+		case <-notify:
 			// New data available, try again
 			continue
 		}
